@@ -10,4 +10,6 @@ Extraction "model.ml"
   base62 base62_strict base58 base58_strict
   m_byte_to_N
   m_bx_encode m_bx_decode m_bx_encoded_len m_bx_decoded_len m_bx_valid_len m_bx_obl
-  m_uint32n m_shuffle_N m_fisher_yates_N.
+  m_uint32n m_shuffle_N m_fisher_yates_N
+  m_sign_attached_stream m_sign_detached m_verify_stream m_verify_all m_verify_detached m_mp_read m_mp_encode
+  m_seal_stream m_open_stream m_signcrypt_seal_stream m_signcrypt_open_stream.
